@@ -26,7 +26,9 @@ type fsmCfg struct {
 	Jobs   bool
 }
 
-func (c fsmCfg) String() string { return fmt.Sprintf("ctx=%v expiry=%v jobs=%v", c.Ctx, c.Expiry, c.Jobs) }
+func (c fsmCfg) String() string {
+	return fmt.Sprintf("ctx=%v expiry=%v jobs=%v", c.Ctx, c.Expiry, c.Jobs)
+}
 
 type fsmModel struct {
 	state     string
@@ -108,6 +110,8 @@ func (m *fsmModel) step(op string) string {
 // failingAcks: the adapter refuses its first acknowledgements (a backend hiccup); the lifecycle must not care
 func failingAcks(l *Ledger) *Ledger {
 	l.FailAck[1], l.FailAck[2], l.FailAck[3] = true, true, true
+	// ... and single dequeues: the dispatcher reports the error and goes on
+	l.FailDeq[1], l.FailDeq[4] = true, true
 	return l
 }
 
